@@ -8,7 +8,7 @@ lim=int(sys.argv[3]) if len(sys.argv)>3 else 10
 for c,o in zip(cases,outs):
     if not c: continue
     case,impl=c.split('\t'); f=o.split('\t')
-    if impl!=f[0]:
+    if impl!=f[0] and f[0]!='("SKIP")':
         n+=1
         if n<=lim:
             print("CASE ",case[:1500]); print(" impl ",impl[:1500]); print(" model",f[0][:1500]); print()
